@@ -264,7 +264,7 @@ func checkC03(w *World, r *Report) {
 			r.check(ok, "C03.panic-conversion", f, "binder adapter", f.Pos(), "defer of a function that calls recover() directly", "the deferred function does not call recover() itself (recover only works in the deferred function): a panicking builtin is not converted into an error")
 		}
 	}
-	r.floor("C03.panic-conversion", "binder adapters", nad, 6)
+	r.floor("C03.panic-conversion", "binder adapters", nad, 2)
 	ruleWrap(w, r)
 	rulePropagate(m, r)
 }
